@@ -106,3 +106,44 @@ def dur_seconds(ex, d):
     e2 = 2 * u + u * u
     ex.assume(z3.If(exact >= 0, z3.And(r >= exact * (1 - e2), r <= exact * (1 + e2)), z3.And(r <= exact * (1 - e2), r >= exact * (1 + e2))))
     return FloatV(r)
+
+
+_POW = {}
+
+
+def go_pow(ex, x, y):
+    """math.Pow for concrete arguments, computed by the installed Go runtime (not by libm)"""
+    a, b = real_of(x), real_of(y)
+    if not (is_conc(a) and is_conc(b)):
+        raise Unsupported('math.Pow with symbolic arguments')
+    key = (float(a), float(b))
+    if key not in _POW:
+        tab = ex.env.get('pow_table') or {}
+        if key in tab:
+            _POW[key] = tab[key]
+        else:
+            raise Unsupported('math.Pow(%r,%r) not in the precomputed table' % key)
+    return FloatV(_POW[key])
+
+
+def go_pow_table(base, ns):
+    """run the real math.Pow of the installed Go toolchain for base^n, n in ns -> {(base,n): float}"""
+    import subprocess, tempfile, os, struct
+    from .runner import GOENV
+    d = tempfile.mkdtemp(prefix='verif-pow-')
+    try:
+        src = os.path.join(d, 'main.go')
+        with open(src, 'w') as fh:
+            fh.write('package main\nimport ("fmt";"math")\nfunc main(){ for n:=0;n<=%d;n++ { fmt.Println(n, math.Float64bits(math.Pow(%r, float64(n)))) } }\n' % (max(ns), base))
+        out = subprocess.run(['go', 'run', src], capture_output=True, text=True, env=dict(GOENV, GOFLAGS=''), cwd=d, timeout=300)
+        if out.returncode != 0:
+            raise RuntimeError(out.stderr)
+        tab = {}
+        for line in out.stdout.split('\n'):
+            if line.strip():
+                n, bits = line.split()
+                tab[(float(base), float(int(n)))] = struct.unpack('>d', struct.pack('>Q', int(bits)))[0]
+        return tab
+    finally:
+        import shutil
+        shutil.rmtree(d, ignore_errors=True)
